@@ -257,12 +257,12 @@ def generate(tr):
         run(2, 1, 0, False, 9, ["cfg1", "up1", "up2"], cap=1500, name="x", withx=True)
         run(2, 2, 4, True, 14, ["cfg1", "up1", "up2"], simulate="num=800", cap=1000, name="y", withx=True)
     else:
-        run(2, 2, 0, False, 9, allreq, cap=40000, name="a")
-        run(3, 2, 8, True, 20, allreq, simulate="num=20000", name="b")
-        run(3, 1, 0, False, 11, allreq, cap=20000, name="c")
-        run(2, 3, 4, True, 14, ["cfg1", "up1", "up2", "search"], simulate="num=10000", name="d")
-        run(2, 2, 0, False, 11, ["cfg1", "up1", "up2"], cap=20000, name="x", withx=True)
-        run(3, 2, 6, True, 18, allreq, simulate="num=10000", name="y", withx=True)
+        run(2, 2, 0, False, 9, allreq, cap=20000, name="a")
+        run(3, 2, 8, True, 20, allreq, simulate="num=20000", cap=15000, name="b")
+        run(3, 1, 0, False, 11, allreq, cap=12000, name="c")
+        run(2, 3, 4, True, 14, ["cfg1", "up1", "up2", "search"], simulate="num=10000", cap=8000, name="d")
+        run(2, 2, 0, False, 11, ["cfg1", "up1", "up2"], cap=10000, name="x", withx=True)
+        run(3, 2, 6, True, 18, allreq, simulate="num=10000", cap=8000, name="y", withx=True)
     return out, stats
 
 
